@@ -148,7 +148,7 @@ pub(crate) fn parse_part(
             parse_time_part(chars, string)?
         }
         _ => {
-            remove_part(chars.len(), string)?;
+            remove_part(chars.chars().count(), string)?;
             None
         }
     })
@@ -369,7 +369,7 @@ pub(crate) fn parse_date_part(
         },
         'e' => parse_wday(chars.len(), string)?,
         _ => {
-            remove_part(chars.len(), string)?;
+            remove_part(chars.chars().count(), string)?;
             None
         }
     })
@@ -693,7 +693,7 @@ pub(crate) fn parse_time_part(
         'X' => parse_zone(chars.len(), string, true)?,
         'x' => parse_zone(chars.len(), string, false)?,
         _ => {
-            remove_part(chars.len(), string)?;
+            remove_part(chars.chars().count(), string)?;
             None
         }
     })
@@ -936,14 +936,41 @@ fn parse_zone(
     })
 }
 
+/// Returns the length in bytes of the first `length` characters of the string.
+/// Returns `None` if the string is shorter than that.
+fn chars_to_bytes(string: &str, length: usize) -> Option<usize> {
+    if length == 0 {
+        return Some(0);
+    }
+    string
+        .char_indices()
+        .nth(length - 1)
+        .map(|(index, char)| index + char.len_utf8())
+}
+
+/// Removes an escaped part of the format string (`'...'` or escaped apostrophes) from the string to parse
+pub(crate) fn remove_escaped_part(part: &str, string: &mut String) -> Result<(), AstrolabeError> {
+    let mut length = part.chars().count();
+    if part.starts_with('\'') {
+        // The surrounding apostrophes are not part of the string to parse
+        length -= if length > 1 && part.ends_with('\'') {
+            2
+        } else {
+            1
+        };
+    }
+    remove_part(length, string)
+}
+
 fn remove_part(length: usize, string: &mut String) -> Result<(), AstrolabeError> {
-    if string.chars().count() < length {
-        Err(create_invalid_format(
+    match chars_to_bytes(string, length) {
+        Some(bytes) => {
+            string.replace_range(0..bytes, "");
+            Ok(())
+        }
+        None => Err(create_invalid_format(
             "String to parse is too short. Please check your format string.".to_string(),
-        ))
-    } else {
-        string.replace_range(0..length, "");
-        Ok(())
+        )),
     }
 }
 
@@ -952,19 +979,20 @@ fn pick_part<T: std::str::FromStr>(
     string: &mut String,
     part_name: &str,
 ) -> Result<T, AstrolabeError> {
-    if string.chars().count() < length {
-        Err(create_invalid_format(
+    match chars_to_bytes(string, length) {
+        Some(bytes) => {
+            let part = string[0..bytes].parse::<T>().map_err(|_| {
+                create_invalid_format(format!(
+                    "Failed parsing {} from given string. Value is '{}'.",
+                    part_name,
+                    &string[0..bytes]
+                ))
+            })?;
+            string.replace_range(0..bytes, "");
+            Ok(part)
+        }
+        None => Err(create_invalid_format(
             "String to parse is too short. Please check your format string.".to_string(),
-        ))
-    } else {
-        let part = string[0..length].parse::<T>().map_err(|_| {
-            create_invalid_format(format!(
-                "Failed parsing {} from given string. Value is '{}'.",
-                part_name,
-                &string[0..length]
-            ))
-        })?;
-        string.replace_range(0..length, "");
-        Ok(part)
+        )),
     }
 }
